@@ -24,6 +24,9 @@ import LianVerif.Drv.GirExec
 import LianVerif.Drv.LowerPy
 import LianVerif.Drv.Frames
 import LianVerif.Drv.Sched
+import LianVerif.Drv.Core
+import LianVerif.Drv.Vocabulary
+import LianVerif.Drv.LowerCore
 
 open Lean LianVerif.Drv
 
@@ -56,6 +59,10 @@ def dispatch (j : Json) : Except String Json := do
   | "modelexec" => LianVerif.Drv.LowerPy.handleModelExec j
   | "frames" => LianVerif.Drv.Frames.handle j
   | "sched" => LianVerif.Drv.Sched.handle j
+  | "evalcore" => LianVerif.Drv.Core.handleEval j
+  | "vocab" => LianVerif.Drv.Vocabulary.handle j
+  | "lowercore" => LianVerif.Drv.LowerCore.handleLower j
+  | "coreexec" => LianVerif.Drv.LowerCore.handleModelExec j
   | _ => throw s!"unknown model {m}"
 
 partial def loop (hin hout : IO.FS.Stream) : IO Unit := do
